@@ -534,7 +534,7 @@ type c15Pub struct {
 	sentAt  []time.Time
 	sendDur []time.Duration
 	sent    int64 // number of messages handed to Send (= index of the next one)
-	err     error
+	errV    atomic.Value // error of the send that ended run (read by the case while run is going)
 	w       atomic.Value // *c15Witness used for pacing
 	maxPace time.Duration
 }
@@ -543,6 +543,11 @@ func c15BuildStream(c *fw.Ctx, inc int, nMedia int) []gen.PubMsg {
 	sh := gen.Shape{Name: "c15", Video: true, Audio: true, Gops: nMedia/50 + 1, GopLen: 25, AudioPerVid: 1,
 		Sizes: []int{6000, 12000, 20000, 30000}}
 	return gen.Build(c.SubRng(fmt.Sprintf("stream%d", inc)), inc, sh)
+}
+
+func (pb *c15Pub) getErr() error {
+	e, _ := pb.errV.Load().(error)
+	return e
 }
 
 func (pb *c15Pub) run(stop chan struct{}, frame *int64, wg *sync.WaitGroup) {
@@ -570,7 +575,7 @@ func (pb *c15Pub) run(stop chan struct{}, frame *int64, wg *sync.WaitGroup) {
 		err := pb.pub.RC.Send(ref.RtmpMsg{Csid: csidFor(m.Type), TypeID: m.Type, StreamID: pb.pub.Msid, Ts: m.Ts, Payload: m.Payload}, 0)
 		pb.sendDur[n] = time.Since(pb.sentAt[n])
 		if err != nil {
-			pb.err = err
+			pb.errV.Store(err)
 			return
 		}
 		atomic.AddInt64(&pb.sent, 1)
@@ -682,7 +687,7 @@ func c15Run(c *fw.Ctx, i int) {
 
 	waitFrame := func(n int64) bool {
 		for atomic.LoadInt64(&frame) < n {
-			if pubs[0].err != nil || int(atomic.LoadInt64(&pubs[0].sent)) >= len(pubs[0].msgs) {
+			if pubs[0].getErr() != nil || int(atomic.LoadInt64(&pubs[0].sent)) >= len(pubs[0].msgs) {
 				return false
 			}
 			time.Sleep(2 * time.Millisecond)
@@ -801,7 +806,7 @@ func c15Run(c *fw.Ctx, i int) {
 			endReason = "decided"
 			break
 		}
-		if pubs[0].err != nil || pubs[1].err != nil {
+		if pubs[0].getErr() != nil || pubs[1].getErr() != nil {
 			endReason = "publisher error"
 			break
 		}
@@ -839,7 +844,7 @@ func c15Run(c *fw.Ctx, i int) {
 
 	// ---- verdicts
 	for _, pb := range pubs {
-		if pb.err != nil {
+		if pb.getErr() != nil {
 			// lal's liveness sweep (every 2 s here) is entitled to drop a publisher that itself
 			// stopped sending for that long: only a publisher that kept sending counts
 			var maxGap, maxSend time.Duration
@@ -857,14 +862,14 @@ func c15Run(c *fw.Ctx, i int) {
 				}
 			}
 			if maxSend > c15DelayBound {
-				c.Violate("delay/publisher-blocked", fmt.Sprintf("the publisher of stream %s was blocked for %v inside one send (lal stopped reading from it) while consumers were stalled: %v", pb.name, maxSend, pb.err), plans)
+				c.Violate("delay/publisher-blocked", fmt.Sprintf("the publisher of stream %s was blocked for %v inside one send (lal stopped reading from it) while consumers were stalled: %v", pb.name, maxSend, pb.getErr()), plans)
 				return
 			}
 			if maxGap > 1500*time.Millisecond {
 				c.Inconclusive("publisher %s paused for %v by itself (loaded machine or pacing) and was dropped by the liveness sweep", pb.name, maxGap)
 				return
 			}
-			c.Violate("publisher-disconnected/"+pb.name, fmt.Sprintf("publisher of stream %s lost its connection while consumers were stalled: %v", pb.name, pb.err), plans)
+			c.Violate("publisher-disconnected/"+pb.name, fmt.Sprintf("publisher of stream %s lost its connection while consumers were stalled: %v", pb.name, pb.getErr()), plans)
 			return
 		}
 	}
